@@ -48,6 +48,7 @@ pub enum Reg {
 
 #[derive(Clone, Debug)]
 pub struct CallRecord {
+    pub resolved: Value,
     pub index: usize,
     pub op: String,
     pub outcome: String,
@@ -88,6 +89,9 @@ fn bad<T>(s: impl Into<String>) -> Result<T, RunError> {
 struct Interp<'a> {
     c: &'a mut Composer,
     regs: HashMap<String, Reg>,
+    // arguments of the current op with registers resolved to 1-based witness
+    // indexes (what the trace specification consumes)
+    resolved: std::cell::RefCell<serde_json::Map<String, Value>>,
 }
 
 fn fe(op: &Value, key: &str) -> Result<BlsScalar, RunError> {
@@ -188,7 +192,11 @@ impl<'a> Interp<'a> {
 
     fn wit(&self, op: &Value, key: &str) -> Result<Witness, RunError> {
         match op.get(key) {
-            Some(v) => self.wit_v(v),
+            Some(v) => {
+                let w = self.wit_v(v)?;
+                self.resolved.borrow_mut().insert(key.to_string(), json!(w.index() + 1));
+                Ok(w)
+            }
             None => bad(format!("missing witness `{key}` in {op}")),
         }
     }
@@ -201,6 +209,14 @@ impl<'a> Interp<'a> {
     }
 
     fn pt(&self, op: &Value, key: &str) -> Result<WitnessPoint, RunError> {
+        let p = self.pt_inner(op, key)?;
+        self.resolved
+            .borrow_mut()
+            .insert(key.to_string(), json!([p.x().index() + 1, p.y().index() + 1]));
+        Ok(p)
+    }
+
+    fn pt_inner(&self, op: &Value, key: &str) -> Result<WitnessPoint, RunError> {
         match op.get(key) {
             Some(Value::String(s)) => match self.regs.get(s) {
                 Some(Reg::P(p)) => Ok(*p),
@@ -239,11 +255,17 @@ impl<'a> Interp<'a> {
             s = s.public(pi);
         }
         let w = op.get("w").and_then(|w| w.as_array()).cloned().unwrap_or_default();
-        s = s
-            .a(self.wit_or_zero(w.first())?)
-            .b(self.wit_or_zero(w.get(1))?)
-            .c(self.wit_or_zero(w.get(2))?)
-            .d(self.wit_or_zero(w.get(3))?);
+        let ws = [
+            self.wit_or_zero(w.first())?,
+            self.wit_or_zero(w.get(1))?,
+            self.wit_or_zero(w.get(2))?,
+            self.wit_or_zero(w.get(3))?,
+        ];
+        self.resolved.borrow_mut().insert(
+            "w".to_string(),
+            json!(ws.iter().map(|x| x.index() + 1).collect::<Vec<_>>()),
+        );
+        s = s.a(ws[0]).b(ws[1]).c(ws[2]).d(ws[3]);
         Ok(s)
     }
 
@@ -315,6 +337,10 @@ impl<'a> Interp<'a> {
                     self.wit_or_zero(w.get(2))?,
                     self.wit_or_zero(w.get(3))?,
                 ];
+                self.resolved.borrow_mut().insert(
+                    "w".to_string(),
+                    json!(wires.iter().map(|x| x.index() + 1).collect::<Vec<_>>()),
+                );
                 let pi = fe_opt(op, "pi")?;
                 self.c.verif_raw_gate(selectors, wires, pi);
             }
@@ -630,31 +656,47 @@ pub fn run_program(
     composer: &mut Composer,
     mut trace: Option<&mut Vec<CallRecord>>,
 ) -> Result<(), RunError> {
+    run_program_cb(program, composer, &mut |r, _| {
+        if let Some(t) = trace.as_deref_mut() {
+            t.push(r.clone());
+        }
+    })
+}
+
+/// Like `run_program`, calling `cb(record, composer)` after every op (the
+/// composer is in the state the op left it in).
+pub fn run_program_cb(
+    program: &Program,
+    composer: &mut Composer,
+    cb: &mut dyn FnMut(&CallRecord, &Composer),
+) -> Result<(), RunError> {
     let mut it = Interp {
         c: composer,
         regs: HashMap::new(),
+        resolved: Default::default(),
     };
     for (i, op) in program.ops.iter().enumerate() {
         let rows_before = it.c.constraints();
         let wit_before = it.c.verif_witness_count();
+        it.resolved.borrow_mut().clear();
         let r = it.step(op);
         let (outcome, ret) = match &r {
             Ok(ret) => ("ok".to_string(), ret.clone()),
             Err(RunError::Lib(e)) => (format!("err:{}", err_class(e)), vec![]),
             Err(RunError::Bad(s)) => (format!("bad:{s}"), vec![]),
         };
-        if let Some(t) = trace.as_deref_mut() {
-            t.push(CallRecord {
-                index: i,
-                op: op.get("op").and_then(|o| o.as_str()).unwrap_or("").to_string(),
-                outcome,
-                rows_before,
-                rows_after: it.c.constraints(),
-                wit_before,
-                wit_after: it.c.verif_witness_count(),
-                ret,
-            });
-        }
+        let rec = CallRecord {
+            resolved: Value::Object(it.resolved.borrow().clone()),
+            index: i,
+            op: op.get("op").and_then(|o| o.as_str()).unwrap_or("").to_string(),
+            outcome,
+            rows_before,
+            rows_after: it.c.constraints(),
+            wit_before,
+            wit_after: it.c.verif_witness_count(),
+            ret,
+        };
+        cb(&rec, it.c);
         r?;
     }
     Ok(())
